@@ -54,6 +54,11 @@ FIRST = {
     "C09-8": "translator failure + refinement theorems C09_gen_choose / C04_gen_rule_unit_free broken, no-failing-input-found", "C10-8": "caught (replay)",
     "C11-8": "missed", "C12-8": "translator failure + refinement theorem C12_gen_limit_overlaps broken, no-failing-input-found", "C13-8": "missed", "C14-8": "missed",
     "C15-8": "missed", "C16-8": "missed", "C17-8": "caught (replay)", "C18-8": "missed", "C19-8": "translator failure (math.py), no-failing-input-found", "C20-8": "caught (replay)",
+    # round 9
+    "C01-9": "caught (replay)", "C02-9": "caught (replay)", "C03-9": "caught (replay)", "C04-9": "caught (replay)", "C05-9": "missed", "C06-9": "missed",
+    "C07-9": "missed", "C08-8": "missed", "C09-9": "missed", "C10-9": "missed", "C11-9": "missed", "C12-9": "missed", "C13-9": "missed", "C14-9": "missed",
+    "C15-9": "caught (replay)", "C16-9": "missed", "C17-9": "translator change + refinement theorem C17_gen_trans_func broken, no-failing-input-found", "C18-9": "missed",
+    "C19-9": "caught (replay)", "C20-9": "caught (replay)",
 }
 
 
